@@ -975,17 +975,17 @@ let toktype_order =
 (** val symbols : (n * toktype) list **)
 
 let symbols =
-  ((Npos (XO (XO (XO (XI (XO XH)))))), TLParen) :: (((Npos (XI (XO (XO (XI
-    (XO XH)))))), TRParen) :: (((Npos (XI (XI (XO (XI (XI (XO XH))))))),
+  ((Npos (XI (XO (XI (XI (XI XH)))))), TEqual) :: (((Npos (XO (XI (XI (XI (XI
+    XH)))))), TGreater) :: (((Npos (XO (XO (XI (XI (XI XH)))))),
+    TLess) :: (((Npos (XO (XI (XO (XI (XI XH)))))), TColon) :: (((Npos (XI
+    (XI (XO (XI (XO XH)))))), TPlus) :: (((Npos (XO (XI (XI (XI (XI (XI
+    XH))))))), TTilde) :: (((Npos (XO (XI (XI (XI (XI (XO XH))))))),
+    TCarrot) :: (((Npos (XI (XO (XO (XI (XO XH)))))), TRParen) :: (((Npos (XO
+    (XO (XO (XI (XO XH)))))), TLParen) :: (((Npos (XI (XI (XO (XI (XI (XI
+    XH))))))), TLCurly) :: (((Npos (XI (XO (XI (XI (XI (XI XH))))))),
+    TRCurly) :: (((Npos (XI (XI (XO (XI (XI (XO XH))))))),
     TLSquare) :: (((Npos (XI (XO (XI (XI (XI (XO XH))))))),
-    TRSquare) :: (((Npos (XI (XI (XO (XI (XI (XI XH))))))),
-    TLCurly) :: (((Npos (XI (XO (XI (XI (XI (XI XH))))))),
-    TRCurly) :: (((Npos (XO (XI (XO (XI (XI XH)))))), TColon) :: (((Npos (XI
-    (XI (XO (XI (XO XH)))))), TPlus) :: (((Npos (XI (XO (XI (XI (XI XH)))))),
-    TEqual) :: (((Npos (XO (XI (XI (XI (XI XH)))))), TGreater) :: (((Npos (XO
-    (XI (XI (XI (XI (XI XH))))))), TTilde) :: (((Npos (XO (XI (XI (XI (XI (XO
-    XH))))))), TCarrot) :: (((Npos (XO (XO (XI (XI (XI XH)))))),
-    TLess) :: []))))))))))))
+    TRSquare) :: []))))))))))))
 
 (** val terminal_tokens : toktype list **)
 
@@ -1085,10 +1085,11 @@ let to_string =
 (** val validators : (operator * char list) list **)
 
 let validators =
-  (Equals,
-    ('v'::('a'::('l'::('i'::('d'::('a'::('t'::('e'::('E'::('q'::('u'::('a'::('l'::('s'::[]))))))))))))))) :: ((And,
+  (And,
     ('v'::('a'::('l'::('i'::('d'::('a'::('t'::('e'::('A'::('n'::('d'::[])))))))))))) :: ((Or,
-    ('v'::('a'::('l'::('i'::('d'::('a'::('t'::('e'::('O'::('r'::[]))))))))))) :: ((Not,
+    ('v'::('a'::('l'::('i'::('d'::('a'::('t'::('e'::('O'::('r'::[]))))))))))) :: ((Equals,
+    ('v'::('a'::('l'::('i'::('d'::('a'::('t'::('e'::('E'::('q'::('u'::('a'::('l'::('s'::[]))))))))))))))) :: ((Like,
+    ('v'::('a'::('l'::('i'::('d'::('a'::('t'::('e'::('L'::('i'::('k'::('e'::[]))))))))))))) :: ((Not,
     ('v'::('a'::('l'::('i'::('d'::('a'::('t'::('e'::('N'::('o'::('t'::[])))))))))))) :: ((Range,
     ('v'::('a'::('l'::('i'::('d'::('a'::('t'::('e'::('R'::('a'::('n'::('g'::('e'::[])))))))))))))) :: ((Must,
     ('v'::('a'::('l'::('i'::('d'::('a'::('t'::('e'::('M'::('u'::('s'::('t'::[]))))))))))))) :: ((MustNot,
@@ -1101,17 +1102,17 @@ let validators =
     ('v'::('a'::('l'::('i'::('d'::('a'::('t'::('e'::('C'::('o'::('m'::('p'::('a'::('r'::('e'::[])))))))))))))))) :: ((Less,
     ('v'::('a'::('l'::('i'::('d'::('a'::('t'::('e'::('C'::('o'::('m'::('p'::('a'::('r'::('e'::[])))))))))))))))) :: ((GreaterEq,
     ('v'::('a'::('l'::('i'::('d'::('a'::('t'::('e'::('C'::('o'::('m'::('p'::('a'::('r'::('e'::[])))))))))))))))) :: ((LessEq,
-    ('v'::('a'::('l'::('i'::('d'::('a'::('t'::('e'::('C'::('o'::('m'::('p'::('a'::('r'::('e'::[])))))))))))))))) :: ((Like,
-    ('v'::('a'::('l'::('i'::('d'::('a'::('t'::('e'::('L'::('i'::('k'::('e'::[]))))))))))))) :: ((In,
+    ('v'::('a'::('l'::('i'::('d'::('a'::('t'::('e'::('C'::('o'::('m'::('p'::('a'::('r'::('e'::[])))))))))))))))) :: ((In,
     ('v'::('a'::('l'::('i'::('d'::('a'::('t'::('e'::('I'::('n'::[]))))))))))) :: ((List,
     ('v'::('a'::('l'::('i'::('d'::('a'::('t'::('e'::('L'::('i'::('s'::('t'::[]))))))))))))) :: []))))))))))))))))))
 
 (** val renderers : (operator * char list) list **)
 
 let renderers =
-  (Equals,
-    ('r'::('e'::('n'::('d'::('e'::('r'::('E'::('q'::('u'::('a'::('l'::('s'::[]))))))))))))) :: ((And,
+  (And,
     ('r'::('e'::('n'::('d'::('e'::('r'::('B'::('a'::('s'::('i'::('c'::[])))))))))))) :: ((Or,
+    ('r'::('e'::('n'::('d'::('e'::('r'::('B'::('a'::('s'::('i'::('c'::[])))))))))))) :: ((Equals,
+    ('r'::('e'::('n'::('d'::('e'::('r'::('E'::('q'::('u'::('a'::('l'::('s'::[]))))))))))))) :: ((Like,
     ('r'::('e'::('n'::('d'::('e'::('r'::('B'::('a'::('s'::('i'::('c'::[])))))))))))) :: ((Not,
     ('r'::('e'::('n'::('d'::('e'::('r'::('W'::('r'::('a'::('p'::('p'::('e'::('r'::[])))))))))))))) :: ((Range,
     ('r'::('e'::('n'::('d'::('e'::('r'::('R'::('a'::('n'::('g'::('e'::[])))))))))))) :: ((Must,
@@ -1125,22 +1126,21 @@ let renderers =
     ('r'::('e'::('n'::('d'::('e'::('r'::('B'::('a'::('s'::('i'::('c'::[])))))))))))) :: ((Less,
     ('r'::('e'::('n'::('d'::('e'::('r'::('B'::('a'::('s'::('i'::('c'::[])))))))))))) :: ((GreaterEq,
     ('r'::('e'::('n'::('d'::('e'::('r'::('B'::('a'::('s'::('i'::('c'::[])))))))))))) :: ((LessEq,
-    ('r'::('e'::('n'::('d'::('e'::('r'::('B'::('a'::('s'::('i'::('c'::[])))))))))))) :: ((Like,
     ('r'::('e'::('n'::('d'::('e'::('r'::('B'::('a'::('s'::('i'::('c'::[])))))))))))) :: ((In,
     ('r'::('e'::('n'::('d'::('e'::('r'::('B'::('a'::('s'::('i'::('c'::[])))))))))))) :: ((List,
     ('r'::('e'::('n'::('d'::('e'::('r'::('L'::('i'::('s'::('t'::[]))))))))))) :: []))))))))))))))))))
 
 type renderfn_id =
-| Fn_literal
 | Fn_basicCompound of operator
-| Fn_basicWrap of operator
 | Fn_equals
+| Fn_like
+| Fn_basicWrap of operator
 | Fn_rang
 | Fn_noop
-| Fn_like
+| Fn_literal
 | Fn_greater
-| Fn_greaterEq
 | Fn_less
+| Fn_greaterEq
 | Fn_lessEq
 | Fn_inFn
 | Fn_list
@@ -1148,13 +1148,13 @@ type renderfn_id =
 (** val shared_fns : (operator * renderfn_id) list **)
 
 let shared_fns =
-  (Literal, Fn_literal) :: ((And, (Fn_basicCompound And)) :: ((Or,
-    (Fn_basicCompound Or)) :: ((Not, (Fn_basicWrap Not)) :: ((Equals,
-    Fn_equals) :: ((Range, Fn_rang) :: ((Must, Fn_noop) :: ((MustNot,
-    (Fn_basicWrap Not)) :: ((Wild, Fn_literal) :: ((Regexp,
-    Fn_literal) :: ((Like, Fn_like) :: ((Greater, Fn_greater) :: ((GreaterEq,
-    Fn_greaterEq) :: ((Less, Fn_less) :: ((LessEq, Fn_lessEq) :: ((In,
-    Fn_inFn) :: ((List, Fn_list) :: []))))))))))))))))
+  (And, (Fn_basicCompound And)) :: ((Or, (Fn_basicCompound Or)) :: ((Equals,
+    Fn_equals) :: ((Like, Fn_like) :: ((Not, (Fn_basicWrap Not)) :: ((Range,
+    Fn_rang) :: ((Must, Fn_noop) :: ((MustNot, (Fn_basicWrap
+    Not)) :: ((Literal, Fn_literal) :: ((Wild, Fn_literal) :: ((Regexp,
+    Fn_literal) :: ((Greater, Fn_greater) :: ((Less, Fn_less) :: ((GreaterEq,
+    Fn_greaterEq) :: ((LessEq, Fn_lessEq) :: ((In, Fn_inFn) :: ((List,
+    Fn_list) :: []))))))))))))))))
 
 (** val postgres_own_fns : (operator * renderfn_id) list **)
 
